@@ -900,3 +900,66 @@ pub fn cli_main(spec: PropSpec) -> ! {
 
 #[allow(dead_code)]
 fn _unused(_: &dyn ValueTree<Value = u8>) {}
+
+// ------------------------------------------------------------------------------------------------
+// coverage-guided fuzzing entry: libFuzzer bytes -> (sub-check selector, choice tape)
+
+/// State shared by the iterations of one fuzz target (built once).
+pub struct FuzzHost {
+    prop: &'static str,
+    subs: Vec<SubCheck>,
+    known: Vec<KnownFinding>,
+    strict: bool,
+}
+
+impl FuzzHost {
+    pub fn new(spec: PropSpec) -> Self {
+        // libfuzzer-sys installs an aborting panic hook; expected panics are data for us
+        install_quiet_panic_hook();
+        let ctx = Ctx { tier: Tier::Quick, seed: 0, scale: 1.0 };
+        let mut subs = (spec.subchecks)(&ctx);
+        if let Ok(only) = std::env::var("VERIF_FUZZ_ONLY") {
+            subs.retain(|s| s.name.contains(&only));
+        }
+        assert!(!subs.is_empty());
+        FuzzHost { prop: spec.id, subs, known: load_known(), strict: std::env::var("VERIF_FUZZ_STRICT").is_ok() }
+    }
+
+    /// First two bytes select the sub-check, the rest is the choice tape (little-endian u64 words).
+    /// A genuine failure prints `VIOLATION ...`, saves a replay file and aborts (libFuzzer then
+    /// saves the crashing input); known findings are tolerated unless VERIF_FUZZ_STRICT is set.
+    pub fn one(&self, data: &[u8]) {
+        if data.len() < 2 {
+            return;
+        }
+        let sel = u16::from_le_bytes([data[0], data[1]]) as usize;
+        let sc = &self.subs[(sel * self.subs.len()) >> 16];
+        let tape: Vec<u64> = data[2..]
+            .chunks(8)
+            .map(|c| {
+                let mut w = [0u8; 8];
+                w[..c.len()].copy_from_slice(c);
+                u64::from_le_bytes(w)
+            })
+            .collect();
+        let (ran, case) = run_case(&sc.f, &tape, false);
+        let fail = match ran {
+            Ran::Pass | Ran::Skip => return,
+            Ran::Known(sig, msg) => {
+                let listed = self.known.iter().any(|k| k.id == sig && k.status == "known" && k.properties.iter().any(|p| p == self.prop));
+                if listed && !self.strict {
+                    return;
+                }
+                format!("[{sig}] {msg}")
+            }
+            Ran::Fail(msg) => msg,
+        };
+        let _ = case;
+        let (_, case) = run_case(&sc.f, &tape, true);
+        let path = write_replay(self.prop, &sc.name, &tape, &fail, &case.describe(), "fuzz-");
+        println!("FAIL [fuzz] {} :: {}", sc.name, fail);
+        println!("     case: {}", case.describe());
+        println!("VIOLATION property={} replay={}", self.prop, path);
+        std::process::abort();
+    }
+}
